@@ -15,9 +15,11 @@
   Core Lean only (linked into the driver executable).
 -/
 import RotoV.Model.Typing
+import RotoV.Generated.C07Facts
 
 namespace RotoV.TcRules
 open RotoV.Typing
+open RotoV.Gen
 
 /-- resolved shape of an operand, as `unify` / `is_numeric_type` see it -/
 inductive OTy
@@ -58,40 +60,61 @@ def isListReal : OTy → Bool
   | .listI32 | .listStr => true
   | _ => false
 
-/-- the general arms of `binop` (`match op { … }`), by operator group -/
+/-- the general arms of `binop` (`match op { … }`): the arm is looked up in the
+    table regenerated from the source (`Gen.C07Facts.binopArms`, source order) -/
 def binopGeneral (op : BinOp) (l r : OTy) : Option OTy :=
-  match op with
-  | .and | .or =>
-    match uFlat .bool l, uFlat .bool r with
-    | some _, some _ => some .bool
-    | _, _ => none
-  | .lt | .le | .gt | .ge =>
-    if isNumericReal l then (uFlat l r).map fun _ => .bool else none
-  | .eq | .ne => (uFlat l r).map fun _ => .bool
-  | .add | .sub | .mul | .div => if isNumericReal l then uFlat l r else none
-  | .mod => if isIntReal l then uFlat l r else none
+  match C07Facts.binopArms.find? (fun a => a.ops.contains op) with
+  | none => none
+  | some arm =>
+    if arm.operandsBool then
+      match uFlat .bool l, uFlat .bool r with
+      | some _, some _ => some .bool
+      | _, _ => none
+    else
+      let guardOk := match arm.guard with
+        | .none => true
+        | .numeric => isNumericReal l
+        | .int => isIntReal l
+      if guardOk then (uFlat l r).map fun t => if arm.resultBool then .bool else t else none
 
-/-- `TypeChecker::binop`: the two special cases (ip `/` u8, String/List `+`)
-    are tried first, on the resolved type of the left operand. `some t` = the
-    operands are accepted and the expression has type `t`. -/
+/-- `TypeChecker::binop`: the special cases (ip `/` u8, String/List `+`) are
+    tried first, on the resolved type of the left operand (present iff the
+    generated facts say so). `some t` = the operands are accepted and the
+    expression has type `t`. -/
 def binopReal (op : BinOp) (l r : OTy) : Option OTy :=
-  if op = .div && l = .ipAddr then (uFlat (.int .u8) r).map fun _ => .prefix
-  else if op = .add && l = .string then (uFlat .string r).map fun _ => .string
-  else if op = .add && isListReal l then uFlat l r
+  if C07Facts.divIpPrefix && op = .div && l = .ipAddr then (uFlat (.int .u8) r).map fun _ => .prefix
+  else if C07Facts.addString && op = .add && l = .string then (uFlat .string r).map fun _ => .string
+  else if C07Facts.addList && op = .add && isListReal l then uFlat l r
   else binopGeneral op l r
 
 /-- `Expr::Negate`: unsigned named integer → error; numeric → the operand's
-    type (an `IntVar` becomes `MustBeSigned::Yes`); anything else → error -/
+    type (an `IntVar` becomes `MustBeSigned::Yes`); anything else → error.
+    Each test is present iff the generated facts say so. -/
 def negateReal : OTy → Option OTy
-  | .int t => if t.signed then some (.int t) else none
-  | .intVar _ => some (.intVar true)
+  | .int t => if C07Facts.negateRejectsUnsigned && !t.signed then none else some (.int t)
+  | .intVar s => some (.intVar (s || C07Facts.negateMarksSigned))
   | .f32 => some .f32
   | .f64 => some .f64
   | .floatVar => some .floatVar
-  | _ => none
+  | t => if C07Facts.negateRequiresNumeric then none else some t
 
 /-- `Expr::Not` -/
-def notReal (t : OTy) : Option OTy := (uFlat .bool t).map fun _ => .bool
+def notReal (t : OTy) : Option OTy :=
+  if C07Facts.notOperandBool then (uFlat .bool t).map fun _ => .bool else some .bool
+
+/-- what the root of an assigned path is -/
+inductive VKind | local | constant | context
+  deriving DecidableEq, Repr, Inhabited
+
+/-- the `Assign` / `CompoundAssign` arm with or without the test
+    `path_value.kind != ValueKind::Local` -/
+def assignAcceptsWith (tested : Bool) (k : VKind) : Bool := !tested || k == .local
+
+/-- `Expr::Assign` / `Expr::CompoundAssign`: is a path rooted at a value of this
+    kind accepted? (whether the test is there is read off the source) -/
+def assignAccepts (compound : Bool) (k : VKind) : Bool :=
+  assignAcceptsWith
+    (if compound then C07Facts.compoundAssignRequiresLocal else C07Facts.assignRequiresLocal) k
 
 /-- the documented type an operand shape stands for -/
 def OTy.toTy : OTy → Ty
@@ -105,7 +128,7 @@ def OTy.toTy : OTy → Ty
 
 inductive MatchErr
   | unreachableAfterDefault | unknownVariant | variantHasNoFields | patternArity
-  | needArguments | declaredTwice | nonExhaustive
+  | needArguments | declaredTwice | nonExhaustive | unreachableDuplicate
   deriving DecidableEq, Repr, Inhabited
 
 /-- state of the loop: `used_variants`, `default_arm` -/
@@ -114,6 +137,17 @@ structure MState where
   dflt : Bool
 
 def patIn (n : PatName) (xs : List PatName) : Bool := xs.any (patNameEq n)
+
+/-- `match (field_types.as_slice(), data_field)`: the pattern's binders against
+    the variant's number of fields (binders are inserted with `insert_var`, so
+    two equal binders are "declared multiple times") -/
+def arityCheck : Nat → Option (List Nat) → Except MatchErr Unit
+  | 0, none => .ok ()
+  | 0, some _ => .error .variantHasNoFields
+  | k + 1, some xs =>
+    if k + 1 != xs.length then .error .patternArity
+    else if hasDup xs then .error .declaredTwice else .ok ()
+  | _ + 1, none => .error .needArguments
 
 /-- one arm of `match_expr` (`variants`: name and number of fields) -/
 def matchArm (vs : List (PatName × Nat)) (st : MState) (h : ArmHead) : Except MatchErr MState :=
@@ -124,22 +158,15 @@ def matchArm (vs : List (PatName × Nat)) (st : MState) (h : ArmHead) : Except M
     match vs.find? (fun v => patNameEq v.1 n) with
     | none => .error .unknownVariant
     | some (_, nf) =>
-      let already := patIn n st.used
-      -- `match (field_types.as_slice(), data_field)`
-      let arity : Except MatchErr Unit :=
-        match nf, bs with
-        | 0, none => .ok ()
-        | 0, some _ => .error .variantHasNoFields
-        | k + 1, some xs =>
-          if k + 1 != xs.length then .error .patternArity
-          else if hasDup xs then .error .declaredTwice else .ok ()
-        | _ + 1, none => .error .needArguments
-      match arity with
+      match arityCheck nf bs with
       | .error e => .error e
       | .ok () =>
+        -- a guarded arm does not mark its variant as used; a repeated variant
+        -- only prints a warning
         if h.guarded then .ok st
-        else if !already then .ok { st with used := st.used ++ [n] }
-        else .ok st
+        else if patIn n st.used then
+          (if C07Facts.matchDuplicateVariantIsError then .error .unreachableDuplicate else .ok st)
+        else .ok { st with used := st.used ++ [n] }
 
 def matchLoop (vs : List (PatName × Nat)) : MState → List ArmHead → Except MatchErr MState
   | st, [] => .ok st
@@ -147,8 +174,16 @@ def matchLoop (vs : List (PatName × Nat)) : MState → List ArmHead → Except 
     | .ok st' => matchLoop vs st' rest
     | .error e => .error e
 
-/-- `match_expr`: `none` = accepted -/
+/-- the tests of `match_expr` this model was written from are all still in the
+    source (regenerated facts) -/
+def matchModelled : Bool :=
+  C07Facts.matchRejectsAfterDefault && C07Facts.matchCountsUsedVariants &&
+  C07Facts.matchGuardedArmNotUsed && C07Facts.matchUnguardedWildIsDefault
+
+/-- `match_expr`: `none` = accepted. If one of the modelled tests has left the
+    source, nothing is claimed to be rejected any more. -/
 def matchReal (vs : List (PatName × Nat)) (arms : List ArmHead) : Option MatchErr :=
+  if !matchModelled then none else
   match matchLoop vs ⟨[], false⟩ arms with
   | .error e => some e
   | .ok st => if !st.dflt && st.used.length < vs.length then some .nonExhaustive else none
@@ -179,12 +214,22 @@ def updateIf (new old : DKind) : Bool :=
 abbrev Key := Nat × Nat   -- (scope, identifier)
 abbrev Table := List (Key × DKind)
 
-/-- `insert_declaration`: `none` = `Err(old.id)` ("declared multiple times") -/
+/-- the structure of `insert_declaration` and of the `update_if` closures this
+    model was written from is still in the source (regenerated facts) -/
+def insertModelled : Bool :=
+  C07Facts.insertOccupiedAsksUpdateIf && C07Facts.insertVacantInserts &&
+  C07Facts.insertVarNeverUpdates && C07Facts.insertModuleNeverUpdates &&
+  C07Facts.insertConstUpdatesStubOnly && C07Facts.insertFunctionUpdatesStubOnly &&
+  C07Facts.insertMethodUpdatesStubOnly
+
+/-- `insert_declaration`: `none` = `Err(old.id)` ("declared multiple times").
+    If the modelled structure has left the source, nothing is claimed to be
+    rejected any more. -/
 def insertDecl (t : Table) (k : Key) (new : DKind) : Option Table :=
   match t.lookup k with
   | none => some ((k, new) :: t)
   | some old =>
-    if updateIf new old then some (t.map fun e => if e.1 = k then (k, new) else e) else none
+    if !insertModelled || updateIf new old then some (t.map fun e => if e.1 = k then (k, new) else e) else none
 
 def insertAll : Table → List (Key × DKind) → Option Table
   | t, [] => some t
